@@ -160,7 +160,7 @@ func TestVerifC14(t *testing.T) {
 	defer os.Remove(metricsFile)
 	var logBuf bytes.Buffer
 	var logMu sync.Mutex
-	startBroker := func() (string, func()) {
+	startBroker := func(extra ...string) (string, func()) {
 		ln, err := net.Listen("tcp", "127.0.0.1:0")
 		if err != nil {
 			t.Fatal(err)
@@ -171,6 +171,7 @@ func TestVerifC14(t *testing.T) {
 		if raceRun {
 			cmd = exec.Command(bin, "-disable-tls", "-geoipdb", "test_geoip", "-geoip6db", "test_geoip6", "-addr", addr, "-metrics-log", metricsFile)
 		}
+		cmd.Args = append(cmd.Args, extra...)
 		cmd.Stderr = &lockedWriter{w: &logBuf, mu: &logMu}
 		cmd.Stdout = io.Discard
 		if err := cmd.Start(); err != nil {
@@ -728,6 +729,11 @@ func TestVerifC14(t *testing.T) {
 	go func() {
 		defer fw.Done()
 		fctx := NewBrokerContext(NullLogger())
+		// a broker that has been up for more than a day: geoip loaded, the daily metrics roll-over has happened
+		if err := fctx.metrics.LoadGeoipDatabases("test_geoip", "test_geoip6"); err != nil {
+			r.Note("in-process broker: geoip databases not loaded: %v", err)
+		}
+		fctx.metrics.zeroMetrics() // takes the metrics lock itself
 		go fctx.Broker()
 		fi := &IPC{fctx}
 		mux := http.NewServeMux()
@@ -743,6 +749,23 @@ func TestVerifC14(t *testing.T) {
 			poll, _ := messages.EncodeProxyPollRequestWithRelayPrefix("forced-1", "standalone", "unrestricted", 0, "")
 			pollC <- c14Do(faddr, c14Raw("POST", "/proxy", nil, poll, true), "POST", long)
 		}()
+		// beside it: polls of every NAT type and a client that is refused, after the roll-over (their statistics are
+		// the first of the new period); each must get its response
+		var side sync.WaitGroup
+		for _, natv := range []string{"unknown", "restricted", ""} {
+			side.Add(1)
+			go func(natv string) {
+				defer side.Done()
+				poll, _ := messages.EncodeProxyPollRequestWithRelayPrefix("after-rollover-"+natv, "webext", natv, 0, "")
+				p := c14Do(faddr, c14Raw("POST", "/proxy", nil, poll, true), "POST", long)
+				r.Case("flow/poll-after-metrics-roll-over", fmt.Sprintf("nat=%q -> %s", natv, p.canon()), true)
+				if p.dropped || p.status != 200 {
+					r.OracleFail("connection-dropped-without-response:after-roll-over", "in-process broker after the daily metrics roll-over (geoip loaded): idle poll with NAT type "+natv, p.canon()+" "+p.err,
+						"every HTTP request must receive a response, also the first ones of a new metrics period")
+				}
+			}(natv)
+		}
+		defer side.Wait()
 		time.Sleep(time.Until(boundary.Add(-700 * time.Millisecond)))
 		fctx.snowflakeLock.Lock()
 		go func() {
@@ -804,6 +827,44 @@ func TestVerifC14(t *testing.T) {
 	} {
 		line := "c14 client 1 0 0 7b7d - 7b7d " + c.core
 		r.Compare("legacy-arms", line, c.want, r.Model(line))
+	}
+	// (g) unusual but legal configurations of the broker binary: the distinct-IP journal switched on with an interval
+	// of zero / one nanosecond (a chunk per address), an empty masking key, a relay pattern; a poll, a refused client
+	// and a /debug request must each get their response
+	for ci, extra := range [][]string{
+		{"-ip-count-log", filepath.Join(filepath.Dir(metricsFile), fmt.Sprintf("c14-ipcount-%d-a.log", os.Getpid())), "-ip-count-mask", "k", "-ip-count-interval", "0s"},
+		{"-ip-count-log", filepath.Join(filepath.Dir(metricsFile), fmt.Sprintf("c14-ipcount-%d-b.log", os.Getpid())), "-ip-count-interval", "1ns", "-allowed-relay-pattern", "snowflake.torproject.net$", "-default-relay-pattern", "snowflake.torproject.net$"},
+	} {
+		caddr, stopC := startBroker(extra...)
+		cfgLine := fmt.Sprintf("broker %s", strings.Join(extra[2:], " "))
+		var cw sync.WaitGroup
+		for k := 0; k < 3; k++ {
+			cw.Add(1)
+			go func(k int) {
+				defer cw.Done()
+				pat := "" // accepts every relay: acceptable to a broker without a configured pattern
+				if ci == 1 {
+					pat = "snowflake.torproject.net$"
+				}
+				poll, _ := messages.EncodeProxyPollRequestWithRelayPrefix(fmt.Sprintf("cfg-%d-%d", ci, k), "standalone", "unknown", 0, pat)
+				p := c14Do(caddr, c14Raw("POST", "/proxy", nil, poll, true), "POST", long)
+				r.Case("config/idle-poll", cfgLine+" -> "+p.canon(), true)
+				if p.dropped || p.status != 200 {
+					r.OracleFail("connection-dropped-without-response:config", cfgLine+": idle poll", p.canon()+" "+p.err, "every HTTP request must receive a response under every legal configuration")
+				}
+			}(k)
+		}
+		time.Sleep(300 * time.Millisecond)
+		vj, _ := json.Marshal(map[string]string{"offer": "cfg", "nat": "unrestricted"})
+		c := c14Do(caddr, c14Raw("POST", "/client", nil, append([]byte("1.0\n"), vj...), true), "POST", long)
+		d := c14Do(caddr, c14Raw("GET", "/debug", nil, nil, false), "GET", 5*time.Second)
+		r.Case("config/client-and-debug", fmt.Sprintf("%s -> client %s debug %d", cfgLine, c.canon(), d.status), true)
+		if c.dropped || d.dropped || d.status != 200 {
+			r.OracleFail("connection-dropped-without-response:config", cfgLine+": client / debug", c.canon()+" "+c.err+" | "+d.canon()+" "+d.err, "every HTTP request must receive a response under every legal configuration")
+		}
+		cw.Wait()
+		stopC()
+		os.Remove(extra[1])
 	}
 	// (f) no poisoning by numbers: thousands of requests that are each refused on their own - clients naming an
 	// unknown bridge, undecodable client and proxy polls, answers for unknown sessions - and then a complete
